@@ -475,7 +475,14 @@ def compare(Mx, c, Rregs, Rmem, Sregs, side, P, res, info, key, what, acc, use_m
     return True
 
 
+_DEADLINE = [None]
+
+
 def prove_eq(P, got, want, side, res):
+    import time
+    if _DEADLINE[0] is not None and time.time() > _DEADLINE[0]:
+        res["queries_skipped_on_time_budget"] = res.get("queries_skipped_on_time_budget", 0) + 1
+        return "unknown", None
     nl = TS.NLAbstraction()
     g2, w2 = nl(got), nl(want)
     if nl.count:
@@ -648,6 +655,7 @@ def run_item(item):
     P = TS.Prover(timeout_ms=8000 if tier == "quick" else 20000)
     t0 = time.time()
     budget = 200 if tier == "quick" else 2400
+    _DEADLINE[0] = t0 + budget + 30
     seqs = sequences(name, mi, a, b, tier, seed)
     for n_done, (idx, raws) in enumerate(seqs):
         if time.time() - t0 > budget:
@@ -676,6 +684,7 @@ def coverage(agg, tier):
         "solver_counterexamples_not_reproduced_by_the_real_routes(inconclusive)": agg.get("counterexamples_not_reproduced", 0),
         "not_reproduced_examples": agg.get("not_reproduced_examples", [])[:4],
         "sequences_skipped_on_time_budget": agg.get("sequences_skipped_on_time_budget", 0),
+        "queries_skipped_on_time_budget": agg.get("queries_skipped_on_time_budget", 0),
         "solver_s": round(agg.get("solver_s", 0.0), 1),
         "rule": "program = (cpu module, decode mode, instruction sequence, noaliasing, memtrace); obligation = one register / the pc / one universally quantified memory byte of one route (block map; state>>block; block.eval(state); stepwise from state) against the z3 composition of the single-instruction maps, for all values of everything the state template leaves symbolic",
         "bounds": {"sequences": "per cpu module and mode (quick 16 | thorough 120) seeded sequences of length 1..(4 | 8) drawn from a pool of randomly decoded instructions (<= 2 per mnemonic in quick) that have semantics",
